@@ -43,6 +43,13 @@ def expected_stream(cfg):
                 continue
             return out, exc
         v = 100 + i
+        pl = cfg.get('payload')
+        if pl == 'ndarray':
+            v = ['ndarray', [v, v + 1]]
+        elif pl == 'eq_any':
+            v = ['eq_any', v]
+        elif pl == 'none':
+            v = None if v % 2 else v
         out.append([f'k{i}', v] if cfg.get('mode') == 'items' else v)
     return out, None
 
@@ -87,6 +94,8 @@ def expected_round(cfg, consumer):
             vals, exc = (vals + vals, None) if exc is None else (vals, exc)
     if consumer[0] == 'exhaust':
         return vals, exc
+    if consumer[0] == 'two-iterators':
+        return [vals, vals], exc
     k = consumer[1]
     if k <= len(vals):
         return vals[:k], None
@@ -302,6 +311,10 @@ def finding_key(kind, cfg):
         parts.append('+'.join(str(x) for x in cfg['pre']))
     if cfg.get('copy_first'):
         parts.append('via-copy')
+    if cfg.get('payload'):
+        parts.append('payload-' + cfg['payload'])
+    if any(c[0] == 'two-iterators' for c in cfg.get('consumers', [])):
+        parts.append('two-iterators')
     return '/'.join(parts)
 
 
